@@ -395,6 +395,90 @@ def wireDec (isMap : Bool) : List Sx → Sx
         | _ => tag "reject" []
     | _, _ => tag "bad-req" []
   | _ => tag "bad-req" []
+/-! derived struct diffs of shapes whose fields are flat (`u32`, `Option<u32>`) or recursive maps of flat values:
+`(senc fmt (skip ..) (kind ..) ((j payload) ..))`, `(sdec fmt (skip ..) (kind ..) (bytes))`;
+skip: 0/1 per field; kind: `0` = u32, `1` = Option<u32>, `(rm (skip ..) (opt ..))` = recursive map of that value type;
+payload: `v` | `none` | `(some v)` | `(Replace ((k (v ..)) ..))` | `(Modify ((Insert k (v ..)) | (Remove k) | (Change k ((j v) ..)) ..))` -/
+
+def pvOf : Sx → Option Codec.PV
+  | .atom "none" => some (.o none)
+  | .list [.atom "some", v] => do some (.o (some (← nat? v)))
+  | v => do some (.u (← nat? v))
+
+def pvSx : Codec.PV → Sx
+  | .u v => ofNat v
+  | .o none => .atom "none"
+  | .o (some v) => tag "some" [ofNat v]
+
+def flagsOf (x : Sx) : Option (List Bool) := (nats? x).map (·.map (· != 0))
+
+def kindOf : Sx → Option Codec.FKind
+  | .list [.atom "rm", sk, op] => do some (.rmap ⟨← flagsOf sk, ← flagsOf op⟩)
+  | v => do some (.flat ((← nat? v) != 0))
+
+def leafEntryOf : Sx → Option (Nat × Codec.PV)
+  | .list [j, v] => do some (← nat? j, ← pvOf v)
+  | _ => none
+
+def valsOf : Sx → Option (List Codec.PV)
+  | .list vs => vs.mapM pvOf
+  | _ => none
+
+def rchangeOf : Sx → Option (RMap.Change Nat (List Codec.PV) (List (Nat × Codec.PV)))
+  | .list [.atom "Insert", k, vs] => do some (.insert (← nat? k) (← valsOf vs))
+  | .list [.atom "Remove", k] => do some (.remove (← nat? k))
+  | .list [.atom "Change", k, .list es] => do some (.change (← nat? k) (← es.mapM leafEntryOf))
+  | _ => none
+
+def kvOf : Sx → Option (Nat × List Codec.PV)
+  | .list [k, vs] => do some (← nat? k, ← valsOf vs)
+  | _ => none
+
+def plOf : Sx → Option Codec.PL
+  | .list [.atom "Replace", .list l] => do some (.rm (.replace (← l.mapM kvOf)))
+  | .list [.atom "Modify", .list es] => do some (.rm (.modify (← es.mapM rchangeOf)))
+  | v => do some (.pv (← pvOf v))
+
+def entryOf : Sx → Option (Nat × Codec.PL)
+  | .list [j, v] => do some (← nat? j, ← plOf v)
+  | _ => none
+
+def leafEntriesSx (es : List (Nat × Codec.PV)) : Sx := .list (es.map fun (j, p) => .list [ofNat j, pvSx p])
+def valsSx (vs : List Codec.PV) : Sx := .list (vs.map pvSx)
+
+def plSx : Codec.PL → Sx
+  | .pv p => pvSx p
+  | .rm (.replace l) => tag "Replace" [.list (l.map fun (k, vs) => .list [ofNat k, valsSx vs])]
+  | .rm (.modify es) => tag "Modify" [.list (es.map fun c => match c with
+      | .insert k vs => tag "Insert" [ofNat k, valsSx vs]
+      | .remove k => tag "Remove" [ofNat k]
+      | .change k d => tag "Change" [ofNat k, leafEntriesSx d])]
+
+def fieldCdc (f : Codec.Fmt) (kinds : List Codec.FKind) (j : Nat) : Codec.Cdc Codec.PL :=
+  Codec.plCdc f (kinds.getD j (.flat false))
+
+def encRefEntries (f : Codec.Fmt) (skips : List Bool) (kinds : List Codec.FKind) (es : List (Nat × Codec.PL)) : List Nat :=
+  Codec.encList (fun e => Codec.encDTag f (Codec.rank skips e.1) ++ Codec.plEncRef f (kinds.getD e.1 (.flat false)) e.2) es
+
+def structEnc : List Sx → Sx
+  | [f, sk, .list ks, .list es] =>
+    match fmtOf f, flagsOf sk, ks.mapM kindOf, es.mapM entryOf with
+    | some f, some sk, some ks, some es =>
+      tag "ok" [tag "owned" [ofNats (Codec.encEntries f sk (fieldCdc f ks) es)], tag "ref" [ofNats (encRefEntries f sk ks es)]]
+    | _, _, _, _ => tag "bad-req" []
+  | _ => tag "bad-req" []
+
+def structDec : List Sx → Sx
+  | [f, sk, .list ks, bs] =>
+    match fmtOf f, flagsOf sk, ks.mapM kindOf, nats? bs with
+    | some f, some sk, some ks, some bs =>
+      -- like `bincode::deserialize` and `DeBin::deserialize_bin`, trailing bytes are not an error
+      match Codec.decEntries f sk (fieldCdc f ks) bs with
+      | some (es, _) => tag "ok" [.list (es.map fun (j, p) => .list [ofNat j, plSx p]),
+                                   tag "reenc" [ofNats (Codec.encEntries f sk (fieldCdc f ks) es)]]
+      | _ => tag "reject" []
+    | _, _, _, _ => tag "bad-req" []
+  | _ => tag "bad-req" []
 end DUn
 
 def dispatch (legacy : Bool) (x : Sx) : Sx :=
@@ -417,6 +501,8 @@ def dispatch (legacy : Bool) (x : Sx) : Sx :=
   | .list (.atom "menc" :: rest) => DUn.wireEnc true rest
   | .list (.atom "udec" :: rest) => DUn.wireDec false rest
   | .list (.atom "mdec" :: rest) => DUn.wireDec true rest
+  | .list (.atom "senc" :: rest) => DUn.structEnc rest
+  | .list (.atom "sdec" :: rest) => DUn.structDec rest
   | _ => tag "bad-req" []
 
 partial def loop (legacy : Bool) (h : IO.FS.Stream) (out : IO.FS.Stream) : IO Unit := do
